@@ -543,6 +543,140 @@ def splice_new_helpers(d, reference):
     return done
 
 
+def _reference_adts():
+    try:
+        with open(os.path.join(os.path.dirname(os.path.abspath(__file__)), "names.json")) as fh:
+            r = json.load(fh).get("adts")
+            return set(r) if r is not None else None
+    except Exception:
+        return None
+
+
+def _places(x, out):
+    if isinstance(x, dict):
+        if "l" in x and "proj" in x:
+            out.append(x)
+            return
+        for v in x.values():
+            _places(v, out)
+    elif isinstance(x, list):
+        for v in x:
+            _places(v, out)
+
+
+def split_new_struct_locals(d, ref_adts):
+    """A struct that the reference tree does not have, used to keep several local variables together (`struct Cursor { node, word, size, next }` in place
+    of four loop variables), is taken apart again: a local of such a type that is only ever built from its fields, copied whole to / from another such
+    local and read field by field is replaced by one local per field (scalar replacement of aggregates on the fact representation).  The rules keep seeing
+    the individual variables with their own data flow.  A local that is borrowed, passed or returned whole is left alone.  -> [(function, local name, struct)]"""
+    if ref_adts is None:
+        return []
+    adts = {a["path"]: a for a in d.get("adts", [])}
+    new = {p_: a for p_, a in adts.items() if a["kind"] == "Struct" and p_ not in ref_adts and len(a["variants"]) == 1 and not a["file"].startswith("/")}
+    if not new:
+        return []
+
+    def head(ty):
+        m = re.match(r"([A-Za-z_][\w:]*)", ty)
+        return m.group(1) if m else None
+
+    def is_field(pr):
+        return isinstance(pr, dict) and "f" in pr and "i" in pr
+    done = []
+    for c in d["bodies"]:
+        if c["file"].startswith("/"):
+            continue
+        cand = {i: head(l["ty"]) for i, l in enumerate(c["locals"]) if i > c["nargs"] and head(l["ty"]) in new and not l["ty"].startswith("&")}
+        if not cand:
+            continue
+        bad = set()
+        copies = []          # (dst, src) whole copies between candidates
+        for blk in c["blocks"]:
+            for st in blk["stmts"]:
+                lhs, rv = st["place"], st["rv"]
+                rps = []
+                _places(rv, rps)
+                whole_copy = None
+                if lhs["l"] in cand and not lhs["proj"]:
+                    S = cand[lhs["l"]]
+                    if rv["k"] == "agg" and isinstance(rv["kind"], dict) and rv["kind"].get("adt") == S and len(rv["ops"]) == len(new[S]["variants"][0]["fields"]):
+                        # the fields are assigned one after the other: none of them may read the struct being built
+                        if any(p_["l"] == lhs["l"] for p_ in rps):
+                            bad.add(lhs["l"])
+                    elif rv["k"] == "use" and (rv["a"].get("copy") or rv["a"].get("move")) is not None:
+                        src = rv["a"].get("copy") or rv["a"].get("move")
+                        if src["l"] in cand and not src["proj"] and cand[src["l"]] == S and src["l"] != lhs["l"]:
+                            whole_copy = (lhs["l"], src["l"])
+                            copies.append(whole_copy)
+                        else:
+                            bad.add(lhs["l"])
+                    else:
+                        bad.add(lhs["l"])
+                elif lhs["l"] in cand and not is_field(lhs["proj"][0]):
+                    bad.add(lhs["l"])
+                for p_ in rps:
+                    if p_["l"] in cand:
+                        if not p_["proj"]:
+                            if whole_copy is None or p_["l"] != whole_copy[1]:
+                                bad.add(p_["l"])
+                        elif not is_field(p_["proj"][0]):
+                            bad.add(p_["l"])
+            tps = []
+            _places(blk["term"], tps)
+            for p_ in tps:
+                if p_["l"] in cand and (not p_["proj"] or not is_field(p_["proj"][0])):
+                    bad.add(p_["l"])
+        for u in c.get("upvars") or []:
+            pass
+        changed = True
+        while changed:
+            changed = False
+            for a_, b_ in copies:
+                if (a_ in bad) != (b_ in bad):
+                    bad |= {a_, b_}
+                    changed = True
+        ok = {i: S for i, S in cand.items() if i not in bad}
+        if not ok:
+            continue
+        parts = {}
+        for i, S in sorted(ok.items()):
+            fl = new[S]["variants"][0]["fields"]
+            parts[i] = []
+            for f in fl:
+                nm = c["locals"][i]["name"]
+                c["locals"].append({"ty": re.sub(r"'[a-z_]\w* ?", "", f["ty"]), "name": ("%s.%s" % (nm, f["name"])) if nm else None})
+                parts[i].append(len(c["locals"]) - 1)
+            done.append((c["path"], c["locals"][i]["name"], S))
+
+        def rewrite(x):
+            ps = []
+            _places(x, ps)
+            for p_ in ps:
+                if p_["l"] in parts and p_["proj"]:
+                    k = p_["proj"][0]["i"]
+                    p_["l"] = parts[p_["l"]][k]
+                    del p_["proj"][0]
+        for blk in c["blocks"]:
+            out = []
+            for st in blk["stmts"]:
+                lhs, rv = st["place"], st["rv"]
+                if lhs["l"] in parts and not lhs["proj"]:
+                    if rv["k"] == "agg":
+                        for k, op in enumerate(rv["ops"]):
+                            rewrite(op)
+                            out.append(dict(st, place={"l": parts[lhs["l"]][k], "proj": []}, rv={"k": "use", "a": op}))
+                    else:
+                        src = rv["a"].get("copy") or rv["a"].get("move")
+                        for k in range(len(parts[lhs["l"]])):
+                            out.append(dict(st, place={"l": parts[lhs["l"]][k], "proj": []}, rv={"k": "use", "a": {"copy": {"l": parts[src["l"]][k], "proj": []}}}))
+                    continue
+                rewrite(st)
+                out.append(st)
+            blk["stmts"] = out
+            rewrite(blk["term"])
+    return done
+
+
 class Facts:
     def __init__(self, path, config=None):
         self.path = path
@@ -550,6 +684,7 @@ class Facts:
         with open(path) as fh:
             d = json.loads(canonical_closure_numbers(fh.read()))
         self.spliced = splice_new_helpers(d, _reference_functions())
+        self.split_locals = split_new_struct_locals(d, _reference_adts())
         self.raw = d
         self.crate = d["crate"]
         self.rustc = d["rustc"]
